@@ -3,6 +3,7 @@ CONSTANTS
   K = 3
   Kinds = {"commit", "blob", "tree"}
   Emit = TRUE
+  RepLevel = 2
   Bug = "none"
 INVARIANTS InvCommit EmitInv
 CHECK_DEADLOCK FALSE
